@@ -37,6 +37,8 @@ def gen(rng):
         d = n
         src = rng.randrange(n)
         m["arcs"].append([src, rng.randrange(nT), d, "1/3"])
+        if rng.random() < 0.5:   # ... which carries an explicit final weight of zero (a retracted final state)
+            m["final"].append([d, "0/1"])
     return m
 
 
